@@ -90,10 +90,16 @@ def run(ctx):
 
 
 def useful(steps):
-    acts = [s["a"] for s in steps]
-    if "Wait" not in acts or "Start" not in acts:
-        return False
-    return any(a in ("Edit", "Delete", "Resurrect") for a in acts[:acts.index("Wait")] if True)
+    """has a caught-up point that follows a Start and at least one environment write"""
+    started = wrote = False
+    for st in steps:
+        if st["a"] == "Start":
+            started = True
+        elif st["a"] in ("Edit", "Delete", "Resurrect"):
+            wrote = True
+        elif st["a"] == "Wait" and started and wrote:
+            return True
+    return False
 
 
 def clean(steps):
